@@ -1,6 +1,107 @@
-//! C12: not implemented yet.
+//! C12: box maps and data-hash object locations.
+//! ops:
+//!  {op:"map", fmt, data:hex | path}                     -> box map + object locations + file length
+//!  {op:"sign", fmt, fixture | data:hex, out:path}       -> sign with box hashing (core.prefer_compress_manifests), write to `out`
+//!  {op:"read", fmt, path, append:hex?, insert:[pos,hex]?} -> mutate a copy in memory, read it, report + box map
+use c2pa::verif_hooks::c12::{box_map, object_locations};
 use serde_json::{json, Value};
 
-pub fn run(_case: &Value) -> Value {
-    json!({"r": "unimplemented"})
+use crate::{e2e, util::*};
+
+fn load(case: &Value) -> Vec<u8> {
+    if let Some(p) = case["path"].as_str() {
+        std::fs::read(p).unwrap_or_else(|e| panic!("read {p}: {e}"))
+    } else if let Some(f) = case["fixture"].as_str() {
+        e2e::fixture(f)
+    } else {
+        hexd(&case["data"])
+    }
+}
+
+fn map_json(fmt: &str, bytes: &[u8]) -> Value {
+    match box_map(fmt, bytes) {
+        Ok(m) => {
+            let v: Vec<Value> = m
+                .into_iter()
+                .map(|(names, s, l, ex)| json!([names, s, l, ex]))
+                .collect();
+            json!({"r": "ok", "map": v})
+        }
+        Err(e) => json!({"r": "err", "kind": err_class(&e), "detail": format!("{e}")}),
+    }
+}
+
+fn loc_json(fmt: &str, bytes: &[u8]) -> Value {
+    match object_locations(fmt, bytes) {
+        Ok(m) => {
+            let v: Vec<Value> = m.into_iter().map(|(o, l, t)| json!([o, l, t])).collect();
+            json!({"r": "ok", "loc": v})
+        }
+        Err(e) => json!({"r": "err", "kind": err_class(&e), "detail": format!("{e}")}),
+    }
+}
+
+pub fn run(case: &Value) -> Value {
+    let fmt = case["fmt"].as_str().unwrap_or("png");
+    match case["op"].as_str().unwrap_or("map") {
+        "map" => {
+            let bytes = load(case);
+            let m = map_json(fmt, &bytes);
+            // the object locations are computed in a separate catch so that a panic there is attributed correctly
+            let l = std::panic::catch_unwind(|| loc_json(fmt, &bytes))
+                .unwrap_or_else(|_| json!({"r": "panic"}));
+            json!({"r": "done", "len": bytes.len(), "box": m, "locs": l})
+        }
+        "sign" => {
+            let src = load(case);
+            let settings = json!({"core": {"prefer_compress_manifests": case["box_hash"].as_bool().unwrap_or(true)}}).to_string();
+            let ctx = e2e::context(Some(&settings));
+            let signer = e2e::signer("ed25519");
+            match e2e::sign(ctx, &e2e::minimal_manifest("c12"), fmt, &src, signer.as_ref()) {
+                Ok(out) => {
+                    let p = case["out"].as_str().expect("out");
+                    std::fs::write(p, &out).expect("write");
+                    json!({"r": "ok", "len": out.len(), "box": map_json(fmt, &out)})
+                }
+                Err(e) => json!({"r": "err", "kind": err_class(&e), "detail": format!("{e}")}),
+            }
+        }
+        "read" => {
+            let mut bytes = load(case);
+            if let Some(ins) = case["insert"].as_array() {
+                let pos = u64_of(&ins[0]) as usize;
+                let extra = hexd(&ins[1]);
+                let tail = bytes.split_off(pos);
+                bytes.extend_from_slice(&extra);
+                bytes.extend_from_slice(&tail);
+            }
+            if case["append"].is_string() {
+                bytes.extend_from_slice(&hexd(&case["append"]));
+            }
+            let m = map_json(fmt, &bytes);
+            let rep = match e2e::read(e2e::context(None), fmt, &bytes) {
+                Ok(r) => {
+                    let mut rep = e2e::report(&r);
+                    let j: Value = serde_json::from_str(&r.json()).unwrap_or(Value::Null);
+                    let mut hard = vec![];
+                    if let (Some(lbl), Some(ms)) = (r.active_label(), j["manifests"].as_object()) {
+                        if let Some(a) = ms.get(lbl).and_then(|m| m["assertions"].as_array()) {
+                            for x in a {
+                                if let Some(l) = x["label"].as_str() {
+                                    if l.starts_with("c2pa.hash.") {
+                                        hard.push(l.to_string());
+                                    }
+                                }
+                            }
+                        }
+                    }
+                    rep["hard_bindings"] = json!(hard);
+                    rep
+                }
+                Err(e) => json!({"state": "Error", "kind": err_class(&e)}),
+            };
+            json!({"r": "ok", "len": bytes.len(), "box": m, "report": rep})
+        }
+        other => json!({"r": "bad-op", "op": other}),
+    }
 }
